@@ -53,7 +53,8 @@ def build_input(rng, idx):
     n_imp = rng.randint(0, 3)
     imports = rng.sample(IMPORT_LINES, n_imp)
     annotated = rng.random() < 0.4
-    lines = list(imports)
+    future = rng.random() < 0.3
+    lines = (["from __future__ import annotations"] if future else []) + list(imports)
     if annotated and "from typing import Optional, List" not in imports:
         lines.append("from typing import Optional, List, Literal, Tuple")
     elif annotated:
@@ -105,6 +106,7 @@ def build_input(rng, idx):
     feats = {"n_entries": n, "n_import_lines": n_imp, "annotated": annotated, "entry_kinds": sorted(set(kinds)),
              "has_function_entry": "function" in kinds, "has_class_entry": "class" in kinds,
              "any_params": any(expect.values()), "aliased_keys": alias, "obj_kind": obj_kind, "mapping_form": form,
+             "future_import": future,
              "keys_in_sorted_order": list(keys) == sorted(keys)}
     return "\n".join(lines), names, feats, expect
 
@@ -187,6 +189,11 @@ def one(ctx, i, tmpdir):
         ctx.report(dict(base, field="output", tag="does_not_parse", msg=str(e)[:120], expected="valid python", observed=""), replay)
         return
     ctx.event("outputs_parsed")
+    try:
+        compile(out_src, out_fn, "exec")  # e.g. `from __future__` imports must come first
+    except SyntaxError as e:
+        ctx.report(dict(base, field="output", tag="does_not_compile", msg=str(e)[:120], expected="compilable module", observed=""), replay)
+    ctx.event("outputs_compiled")
     want = [tpl.format(name=n) for n in names]
     defs = [s for s in tree.body if isinstance(s, (ast.ClassDef, ast.FunctionDef)) and s.name in want]
     got = [d.name for d in defs]
